@@ -154,7 +154,10 @@ impl Geom {
         let spc = *rng.pick(&spcs);
         let per = if fat32 { 128 } else { 256 };
         let lo = if fat32 { 65525 } else { 4085 };
-        let clusters = match rng.below(5) {
+        let clusters = match rng.below(if fat32 { 5 } else { 6 }) {
+            // the largest FAT16 volumes: cluster numbers (and therefore FAT link values) reach
+            // 0xFFF0..0xFFF5, right below the bad-cluster / end-of-chain marks
+            5 => 65519 + rng.below(6) as u32,
             0 => lo,                                                  // the boundary itself
             1 => ((lo + 2 + per - 1) / per) * per - 2,                // last FAT sector exactly full
             2 => ((lo + 2 + per - 1) / per) * per - 2 + per,          // exactly full, one sector more
